@@ -11,8 +11,8 @@ import (
 
 func init() {
 	register("C16", "Decides structural necessary conditions of 'a scan delivers every entry of its range exactly once' (compositional: channel delivery is the axiom, each premise is a shape of the code): "+
-		"(R1) the range generator emits consecutive, abutting, non-empty ranges: next = [start, start + min(end − start, batch) − 1], the following start is the previous end + 1, the first start is StartIndex, the loop stops only when start ≥ end and not continuous, the STH is refreshed only when start = end, the send can always be abandoned on context end, the channel is closed by its producer; "+
-		"(R2) a worker requests exactly [r.start, r.end], labels the delivered batch with the start it requested, advances that same cursor by the number of entries delivered, repeats while r.start ≤ r.end, and on a failed request neither delivers nor advances; "+
+		"(R1) the range generator emits consecutive, abutting, non-empty ranges: next covers the indices start … start + min(end − start, batch) − 1 (its end field is that last index + δ for one constant δ, the same δ the worker takes off again — inclusive and half-open ranges are both decided), the following start is this start + the batch length, the first start is StartIndex, the loop stops only when start ≥ end and not continuous, the STH is refreshed only when start = end, the send can always be abandoned on context end, the channel is closed by its producer; "+
+		"(R2) a worker works off the range it received from the ranges channel: it requests exactly the indices from its cursor r.start up to the last index of the range (r.end − δ), labels the delivered batch with the start it requested, advances that same cursor by the number of entries delivered, requests again exactly while the cursor has not passed that last index (decided for every state the loop test can tell apart, and for cursor = last / last + 1), and on a failed request neither delivers nor advances; "+
 		"(R3) single producer / single consumer structure: only the generator sends ranges, only workers invoke the callback, ScanLog's entry channel is fed only by its flatten callback and closed after the fetcher returns; "+
 		"(R4) indices are derived as batch.Start + i at all three consumers (scanner flatten, migrillian submitter, client.GetEntries); "+
 		"(R5) the scanner calls at most one of the two callbacks per entry, exactly when the matcher selected it (and, for certificates, not in precert-only mode); "+
@@ -132,10 +132,10 @@ func c16GenRanges(r *Run, fn *ssa.Function) {
 	}
 	M := mins[0].V
 	lS := r.D.Lin(sv, nil)
-	// end = start + min − 1
+	// the range emitted covers start … start + min − 1: end = start + min − 1 + δ, δ being the
+	// constant the worker takes off the end again (rules_t6c16.go)
 	diff := r.D.Lin(es[0].Val, nil).add(lS, -1)
-	wantDiff := r.D.Lin(M, nil).add(LinForm{Coef: map[string]int64{}, Const: 1}, -1)
-	r.Check("genRanges:next.end", diff.String() == wantDiff.String(), r.Where(es[0]), "next.end − next.start = "+diff.String()+" (must be min(end−start, batch) − 1)")
+	c16GenEndCheck(r, fn, es[0], diff)
 	// min(end − start, batch): one operand is end − start of the cursor, the other the batch size
 	var E ssa.Value
 	isRemaining := func(v ssa.Value) ssa.Value {
@@ -401,8 +401,7 @@ func c16Worker(r *Run, fn *ssa.Function) {
 		return
 	}
 	strip := func(s string) string { return strings.ReplaceAll(s, "^", "") }
-	reqStart, reqEnd := strip(r.D.D(CallArgs(req)[2])), strip(r.D.D(CallArgs(req)[3]))
-	r.Check("runWorker:request.end", glob("new:scanner.fetchRange#*.end", reqEnd), r.Where(req), "requests up to "+reqEnd+" (the range's end)")
+	reqStart := strip(r.D.D(CallArgs(req)[2]))
 	// callback argument
 	batch := CallArgs(cb[0])[0]
 	a := baseAlloc(batch)
@@ -447,28 +446,9 @@ func c16Worker(r *Run, fn *ssa.Function) {
 		r.Check("runWorker:advance-after-delivery", cb[0].Block() == st.Block() || cb[0].Block().Dominates(st.Block()), r.Where(st), "the cursor advances only after the batch was delivered")
 	})
 	r.Check("runWorker:advance.once", adv == 1, r.FnPos(fn), fmt.Sprintf("%d stores advance the requested-start cursor %s", adv, reqStart))
-	// inner loop: repeats while start <= end
-	found := false
-	for k, ci := range r.D.AtomsOf(fn) {
-		if ci.Kind == "ord" && ((ci.A == reqEnd && ci.B == reqStart) || (ci.A == reqStart && ci.B == reqEnd)) {
-			found = true
-			gt := ">"
-			if ci.A != reqStart {
-				gt = "<"
-			}
-			for _, b := range r.blocksTesting(fn, func(c *CondInfo) bool { return c.Key == k }) {
-				reach := r.D.Walk(fn, Sigma{k: gt}, b, map[*ssa.BasicBlock]bool{b: true})
-				r.Valuations++
-				r.Check("runWorker:range-done[start>end]", !reach.Has(cb[0]) && !reach.Blocks[req.Block()], r.Where(b.Instrs[len(b.Instrs)-1]), "no further request once start > end")
-				for _, v := range []string{"=", map[string]string{">": "<", "<": ">"}[gt]} {
-					reach := r.D.Walk(fn, Sigma{k: v, "nil?iface(context.Context).Err(p1)": "nil", "nil?(*backoff.Backoff).Retry(*)": "nil"}, b, map[*ssa.BasicBlock]bool{b: true})
-					r.Valuations++
-					r.Check("runWorker:range-pending[start"+map[bool]string{true: "=", false: "<"}[v == "="]+"end]", reach.Has(cb[0]), r.Where(b.Instrs[len(b.Instrs)-1]), "while start ≤ end the remainder is requested and delivered")
-				}
-			}
-		}
-	}
-	r.Check("runWorker:loop-condition", found, r.FnPos(fn), "the worker's inner loop compares the cursor with the range end")
+	// the request ends at, and the inner loop runs up to, the last index of the range the
+	// generator emitted — whichever index the range's end field stands for (rules_t6c16.go)
+	c16WorkerEndChecks(r, fn, req, cb[0])
 	// failed request: neither delivered nor advanced
 	r.MustGuardAfter(fn, "runWorker:failed-request-not-delivered", "nil?(*backoff.Backoff).Retry(*)", "non", []ssa.Instruction{cb[0]}, "callback")
 	if retry := r.OneCall(fn, "runWorker:retry", "(*backoff.Backoff).Retry"); retry != nil {
